@@ -61,6 +61,7 @@ KINDS = ("basic", "gff", "gb")
 ADD = ("AddFeature", "AddRow")
 MUTATING = ("Update",) + ADD
 ROUND = ("Copy", "Pickle", "Json", "WriteLoad")
+READONLY = ("Query", "QueryList", "CountDistinct", "Describe")
 NSHARDS = 64
 
 _G: dict = {}
@@ -126,6 +127,11 @@ def arg_class(act, args):
         return other_class(args[0])
     if act == "Update":
         return other_class(args[0]) + f":seqids={len(args[2])}"
+    if act == "QueryList":
+        return f"field={args[1]}:win={win_of(args[0])}"
+    if act == "CountDistinct":
+        c = args[0]
+        return "group=" + ("+".join(f for f in ("seqid", "biotype", "name") if c[f] == "group") or "none") + ":where=" + ("+".join(f for f in ("seqid", "biotype", "name") if c[f] not in ("no", "group")) or "none")
     if act in ADD:
         n = len(args[0]["spans"] if act == "AddFeature" else args[0]["coords"])
         return f"nspans={n}:ord={args[1]}"
@@ -269,6 +275,78 @@ class Replayer:
         if obs and q["win"] != "none" and not any("query" in x for x in out.samples):
             out.samples.append({"class": self.kind, "db": view, "history": [a for _l, a, _g in chain], "query": kw, "selected": obs})
 
+    # -- further read-only calls: value lists, count_distinct, describe / biotype_counts
+    def do_read(self, db, view, chain, act, args, obs):
+        out = self.out
+        self.txn_open = False
+        try:
+            if act == "QueryList":
+                q, f, vs = args
+                kw, _nowin = A.query_kwargs(q)
+                kw[f] = sorted(vs)
+                exp = {"records": sorted(A.spec8(view[i - 1]) for i in obs), "features": sorted(A.spec5(view[i - 1]) for i in obs)}
+                got = {"records": sorted(A.rec8(r) for r in db.get_records_matching(**kw)), "features": sorted(A.feat5(r) for r in db.get_features_matching(**kw))}
+                if tuple(kw[f]) != tuple(sorted(vs)):
+                    raise MachineryError("query arguments were modified by the call")
+                got_t = {"records": sorted(A.rec8(r) for r in db.get_records_matching(**{**kw, f: tuple(kw[f])}))}
+                out.count(act, bool(view))
+                for api in ("records", "features"):
+                    if exp[api] != got[api]:
+                        d, first = A.diff_class(exp[api], got[api])
+                        out.fail(self.key(act, args, db, f"{api}:{d}{rel_of(q, first)}"), self.detail(view, chain, act, args, call_kwargs=kw, expected=exp[api], observed=got[api]), f"get_{api}_matching with a list of values differs from the linear scan")
+                        return
+                if got_t["records"] != exp["records"]:
+                    out.fail(self.key(act, args, db, "records:tuple-differs-from-list"), self.detail(view, chain, act, args, expected=exp["records"], observed=got_t["records"]), "a tuple of values selects differently from a list")
+            elif act == "CountDistinct":
+                c = args[0]
+                kw = {f: (False if c[f] == "no" else True if c[f] == "group" else c[f]) for f in ("seqid", "biotype", "name")}
+                t = db.count_distinct(**kw)
+                out.count(act, bool(view))
+                if obs["none"]:
+                    if t is not None:
+                        out.fail(self.key(act, args, db, "not-None"), self.detail(view, chain, act, args, observed=repr(t)), "count_distinct without a grouped column must return None")
+                    return
+                exp = sorted((tuple(sorted(r["key"].items())), r["n"]) for r in obs["rows"])
+                if t is None:
+                    got = None
+                else:
+                    header = list(t.header)
+                    got = sorted((tuple(sorted((h, v) for h, v in zip(header, row) if h != "count")), int(row[header.index("count")])) for row in t.to_list())
+                if got != exp:
+                    merged = Counter()
+                    for k, n in got or []:
+                        merged[k] += n
+                    what = "rows-split-by-table" if sorted(merged.items()) == exp else "rows"
+                    out.fail(self.key(act, args, db, what), self.detail(view, chain, act, args, call_kwargs=kw, expected=exp, observed=got), "count_distinct rows differ from one row per distinct combination")
+            elif act == "Describe":
+                import ast
+
+                t = db.describe
+                header = list(t.header)
+                got = {"seqid": {}, "biotype": {}, "table": {}}
+                for row in t.to_list():
+                    label, n = row[header.index("")], int(row[header.index("count")])
+                    m = re.match(r"(\w+)\((.*)\)$", label)
+                    kind_, val = m.group(1), ast.literal_eval(m.group(2))
+                    if kind_ == "num_rows":
+                        if n:
+                            got["table"]["user" if val == "user" else "ext"] = n
+                    else:
+                        got[kind_][val] = n
+                exp = {k: {r["value"]: r["n"] for r in obs[k]} for k in ("seqid", "biotype", "table")}
+                bc = dict(db.biotype_counts())
+                out.count(act, bool(view))
+                for part in ("seqid", "biotype", "table"):
+                    if got[part] != exp[part]:
+                        out.fail(self.key(act, args, db, f"describe:{part}"), self.detail(view, chain, act, args, expected=exp, observed=got), f"describe: counts per {part} differ")
+                        return
+                if bc != exp["biotype"]:
+                    out.fail(self.key(act, args, db, "biotype_counts"), self.detail(view, chain, act, args, expected=exp["biotype"], observed=bc), "biotype_counts differs")
+        except MachineryError:
+            raise
+        except Exception as ex:
+            out.fail(self.key(act, args, db, f"exception:{type(ex).__name__}"), self.detail(view, chain, act, args, exception=repr(ex)), f"{act} raised {type(ex).__name__}")
+
     # -- state changing / round trip operations
     def do_op(self, db, key, view, chain, label, act, args, to_view, after, level, deeper=True, variant="observed"):
         out = self.out
@@ -332,16 +410,19 @@ class Replayer:
         succ = self.lookup(key)
         if not succ:
             return
-        queries = [(l, t) for l, t in succ.items() if t[0] == "Query"]
-        ops = [(l, t) for l, t in succ.items() if t[0] != "Query" and self.applicable(t[0], t[1])]
-        self.out.unsupported += sum(1 for l, t in succ.items() if t[0] != "Query" and not self.applicable(t[0], t[1]))
+        queries = [(l, t) for l, t in succ.items() if t[0] in READONLY]
+        ops = [(l, t) for l, t in succ.items() if t[0] not in READONLY and self.applicable(t[0], t[1])]
+        self.out.unsupported += sum(1 for l, t in succ.items() if t[0] not in READONLY and not self.applicable(t[0], t[1]))
         if level > 1:
             if self.follow_q is not None and len(queries) > self.follow_q:
                 queries = self.rng.sample(queries, self.follow_q)
             if self.follow_ops is not None and len(ops) > self.follow_ops:
                 ops = self.rng.sample(ops, self.follow_ops)
         for _l, (act, args, _to, obs) in queries:
-            self.do_query(db, view, chain, args[0], obs, after)
+            if act == "Query":
+                self.do_query(db, view, chain, args[0], obs, after)
+            else:
+                self.do_read(db, view, chain, act, args, obs)
         if is_file(db):
             # to_json/from_dict of a file-backed database re-opens (and, on this tree, rewrites) the file:
             # make it the last call on that object so that no other case reads the file afterwards
@@ -744,7 +825,7 @@ def check(run: Run):
         nprov = prov_C17.validate(run, scratch, fraction=0.3 if tier == "quick" else 1.0)
         run.extra["wall_by_phase_s"]["provenance"] = round(time.time() - t0, 1)
     acts = dict(totals["byact"])
-    needed = {"Query", "Subset", "Union", "Update", "Copy", "Pickle", "Json", "WriteLoad", "AddFeature", "AddRow", "LoadFile"}
+    needed = {"QueryList", "CountDistinct", "Describe", "Query", "Subset", "Union", "Update", "Copy", "Pickle", "Json", "WriteLoad", "AddFeature", "AddRow", "LoadFile"}
     if needed - set(acts):
         raise MachineryError(f"vacuous run: no real execution of {sorted(needed - set(acts))}")
     run.cov["traces_validated_against_impl"] = totals["n"] + nev + nprov
